@@ -28,7 +28,8 @@ From ClapModel Require Import Complete.EngineAccept Complete.EngineFuel Complete
 From ClapModel Require ParseProofs.Chain ParseProofs.ActionsTop.
 From ClapModel Require Import Complete.EngineLine Complete.EnginePositional.
 From ClapModel Require ParseProofs.ChainWide.
-From ClapModel Require Import Complete.EngineItems Complete.EngineWide Complete.EngineHidden.
+From ClapModel Require Import Complete.EngineItems Complete.EngineWide Complete.EngineHidden Complete.EngineOrder.
+From Coq Require Import Permutation Sorted.
 From ClapModel Require Gen.EngineSites.
 From Coq Require Import ZArith.
 Open Scope N_scope.
@@ -750,3 +751,26 @@ Theorem C18_hidden_rule_definitional : forall tbl w c pi st l x y,
   complete_arg tbl w c pi st = COk l -> In x l -> cd_hidden x = false -> In y l -> cd_id y <> None -> def_flag c y false.
 Proof. exact hidden_rule_definitional. Qed.
 Print Assumptions C18_hidden_rule_definitional.
+
+(** * The ORDER of the candidates (Complete/EngineOrder.v)
+    [kcand] = a candidate with its sort data (tag, display order); [sort_final l] = the last statement of [complete_arg]:
+    [tags_of l []] are the tags in order of first appearance, the sort key of a candidate is (position of its tag,
+    display order) with the derived order of [(Option<usize>, Option<usize>)] ([skey_le]); the sort is stable.
+    [complete_arg_ord] / [complete_model_ord] = the engine with that sort (extracted; compared with the real crate AS A
+    LIST in stream `order`). *)
+Theorem C18_sort_final_spec : forall l,
+  Permutation (sort_final l) l /\
+  StronglySorted (kle (sort_key (tags_of l []))) (sort_final l) /\
+  forall k, filter (same_key (sort_key (tags_of l [])) k) (sort_final l) = filter (same_key (sort_key (tags_of l [])) k) l.
+Proof. exact sort_final_spec. Qed.
+Print Assumptions C18_sort_final_spec.
+
+(** the ordered result is a permutation of the unordered model's result, in EVERY state (every theorem about membership in
+    [complete_arg]'s list therefore speaks about the ordered list too).  In state [Opt] beyond the minimum the recursive
+    call's list is sorted before it is appended and de-duplicated again: its ids are pairwise different, the second
+    de-duplication removes nothing *)
+Theorem C18_order_is_permutation : forall ot tbl w c pi st l',
+  complete_arg_ord ot tbl w c pi st = COk l' ->
+  exists l, complete_arg tbl w c pi st = COk l /\ Permutation l' l.
+Proof. exact complete_arg_ord_perm_all. Qed.
+Print Assumptions C18_order_is_permutation.
